@@ -69,7 +69,7 @@ class AsyncResult(g_AsyncResult):
       The AsyncResult's value will be set to the value of the first result to
       complete, or, if all fail, the exception thrown by the last to fail.
     """
-    ready_ars = [ar for ar in ars if ar.ready()]
+    ready_ars = [ar for ar in ars if ar.ready() and ar.successful()]
     if ready_ars:
       return ready_ars[0]
 
@@ -77,7 +77,7 @@ class AsyncResult(g_AsyncResult):
     total = [len(ars)]
     def complete(_ar):
       total[0] -= 1
-      if total[0] == 0 and _ar.exception:
+      if total[0] == 0 and _ar.exception and not ret.ready():
         ret.set_exception(_ar.exception)
       elif not ret.ready() and _ar.successful():
         ret.set(_ar.value)
